@@ -123,9 +123,18 @@ func openStorage(dir string, opt Options) (*storage, error) {
 	if s.log, err = log.Open(filepath.Join(dir, "log"), 0700, logOpt); err != nil {
 		return nil, err
 	}
-	if s.log.LastIndex() < s.snaps.index {
-		// a crash while a snapshot was being installed: the snapshot was
-		// published but the log, which ends before it, was not yet replaced
+	// a crash while a snapshot was being installed: the snapshot was published
+	// but the log was not yet replaced, or only in part. Such a log ends before
+	// the snapshot, begins after it, or holds another term at its index.
+	stale := s.log.LastIndex() < s.snaps.index || s.log.PrevIndex() > s.snaps.index
+	if !stale && s.log.Contains(s.snaps.index) {
+		term, err := s.getEntryTerm(s.snaps.index)
+		if err != nil {
+			return nil, err
+		}
+		stale = term != s.snaps.term
+	}
+	if stale {
 		if err = s.log.Reset(s.snaps.index); err != nil {
 			return nil, opError(err, "Log.Reset(%d)", s.snaps.index)
 		}
